@@ -104,7 +104,12 @@ class arena_slot : private arena_slot_shared_state, private arena_slot_private_s
     void fill_with_canary_pattern ( size_t, std::size_t ) {}
 #endif /* TBB_USE_ASSERT */
 
+#if ONETBB_VERIF_SIM && defined(ONETBB_VERIF_MIN_TASK_POOL)
+    // verification hook: small deques so that growth/compaction happens with a handful of tasks
+    static constexpr std::size_t min_task_pool_size = ONETBB_VERIF_MIN_TASK_POOL;
+#else
     static constexpr std::size_t min_task_pool_size = 64;
+#endif
 
     void allocate_task_pool( std::size_t n ) {
         std::size_t byte_size = ((n * sizeof(d1::task*) + max_nfs_size - 1) / max_nfs_size) * max_nfs_size;
